@@ -27,6 +27,10 @@ func (f Frac) String() string {
 	return fmt.Sprintf("%d/%d", f.Num, f.Den)
 }
 
+func (f Frac) meterText(pad bool) string {
+	return zp(strconv.FormatUint(f.Num, 10), pad) + "/" + zp(strconv.FormatUint(f.Den, 10), pad)
+}
+
 func (f Frac) Rat() *big.Rat {
 	return new(big.Rat).SetFrac(new(big.Int).SetUint64(f.Num), new(big.Int).SetUint64(f.Den))
 }
@@ -128,6 +132,25 @@ type YAMLStyle struct {
 	PlainNumbers bool // write whole-number values and bpm unquoted
 	FlowValues   bool
 	JSON         bool
+	ZeroPad      bool // write numerals with leading zeros ("010/03", bpm 0120, degree 012): still decimal
+}
+
+// zp pads a decimal numeral with leading zeros (deterministically, by its own digits).
+func zp(s string, on bool) string {
+	if !on || s == "" {
+		return s
+	}
+	return strings.Repeat("0", 1+len(s)%3) + s
+}
+
+func (f Frac) padded(on bool) string {
+	if !on {
+		return f.String()
+	}
+	if f.Den == 1 {
+		return zp(strconv.FormatUint(f.Num, 10), true)
+	}
+	return zp(strconv.FormatUint(f.Num, 10), true) + "/" + zp(strconv.FormatUint(f.Den, 10), true)
 }
 
 // YAML renders the piece as an instances document.
@@ -148,17 +171,28 @@ func (p Piece) YAML(st YAMLStyle) []byte {
 		}
 		if c := in.Chord; c != nil {
 			item("chord:")
-			b.WriteString("    degree: " + jstr(YAMLNotation(c.Deg, c.AltDeg)) + "\n")
+			dn := YAMLNotation(c.Deg, c.AltDeg)
+			if st.ZeroPad && dn[0] >= '0' && dn[0] <= '9' {
+				// a bare number, zero-padded and unquoted: still the decimal number as written
+				b.WriteString("    degree: " + zp(dn, true) + "\n")
+			} else {
+				b.WriteString("    degree: " + jstr(dn) + "\n")
+			}
 			b.WriteString("    name: " + jstr(c.Symbol) + "\n")
 			if c.Bass != nil {
-				b.WriteString("    base: " + jstr(YAMLNotation(*c.Bass, c.AltBass)) + "\n")
+				bn := YAMLNotation(*c.Bass, c.AltBass)
+				if st.ZeroPad && bn[0] >= '0' && bn[0] <= '9' {
+					b.WriteString("    base: " + zp(bn, true) + "\n")
+				} else {
+					b.WriteString("    base: " + jstr(bn) + "\n")
+				}
 			}
 		}
 		val := func(f Frac) string {
 			if st.PlainNumbers && f.Den == 1 {
-				return f.String()
+				return f.padded(st.ZeroPad)
 			}
-			return jstr(f.String())
+			return jstr(f.padded(st.ZeroPad))
 		}
 		if st.FlowValues {
 			var vs []string
@@ -174,16 +208,16 @@ func (p Piece) YAML(st YAMLStyle) []byte {
 		}
 		if in.BPM != 0 {
 			if st.PlainNumbers {
-				item("bpm: " + strconv.FormatUint(in.BPM, 10))
+				item("bpm: " + zp(strconv.FormatUint(in.BPM, 10), st.ZeroPad))
 			} else {
-				item("bpm: " + jstr(strconv.FormatUint(in.BPM, 10)))
+				item("bpm: " + jstr(zp(strconv.FormatUint(in.BPM, 10), st.ZeroPad)))
 			}
 		}
 		if in.Velocity != "" {
 			item("velocity: " + in.Velocity)
 		}
 		if in.Meter != nil {
-			item("meter: " + jstr(fmt.Sprintf("%d/%d", in.Meter.Num, in.Meter.Den)))
+			item("meter: " + jstr(Frac{in.Meter.Num, in.Meter.Den}.meterText(st.ZeroPad)))
 		}
 		if in.Key != "" {
 			item("key: " + jstr(in.Key))
@@ -479,16 +513,33 @@ func NoteFor(from theory.Note, i theory.Interval) (theory.Note, bool) {
 }
 
 // ValuesText renders the [..] part.
-func ValuesText(vals []Frac) string {
+func ValuesText(vals []Frac) string { return ValuesTextPad(vals, false) }
+
+func ValuesTextPad(vals []Frac, pad bool) string {
 	var s []string
 	for _, v := range vals {
-		if v.Den == 1 {
-			s = append(s, strconv.FormatUint(v.Num, 10))
-		} else {
-			s = append(s, fmt.Sprintf("%d/%d", v.Num, v.Den))
-		}
+		s = append(s, v.padded(pad))
 	}
 	return "[" + strings.Join(s, ",") + "]"
+}
+
+// MetaPairsPad is MetaPairs with zero-padded bpm and meter numerals.
+func (in Instance) MetaPairsPad(pad bool) [][2]string {
+	p := in.MetaPairs()
+	if !pad {
+		return p
+	}
+	for i := range p {
+		switch p[i][0] {
+		case "bpm":
+			p[i][1] = zp(p[i][1], true)
+		case "mtr":
+			if in.Meter != nil {
+				p[i][1] = in.Meter.meterText(true)
+			}
+		}
+	}
+	return p
 }
 
 // MetaPairs lists the {k=v} pairs an instance needs in chord text, in a fixed
@@ -534,6 +585,7 @@ type TextOpts struct {
 	Underscore bool   // always write _ before symbols
 	Sep        string // between instances
 	UnicodeAcc bool   // write accidentals of roots and basses with the unicode signs
+	ZeroPad    bool   // write the numerals of durations, bpm and meter with leading zeros
 }
 
 func uni(s string, on bool) string {
@@ -584,8 +636,8 @@ func (p Piece) DegreeTextPiece(o TextOpts) (string, bool) {
 		} else {
 			b.WriteString("R")
 		}
-		b.WriteString(ValuesText(in.Values))
-		b.WriteString(MetaText(in.MetaPairs()))
+		b.WriteString(ValuesTextPad(in.Values, o.ZeroPad))
+		b.WriteString(MetaText(in.MetaPairsPad(o.ZeroPad)))
 		parts = append(parts, b.String())
 	}
 	sep := o.Sep
@@ -630,8 +682,8 @@ func (p Piece) SyllableTextPiece(startKey string, o TextOpts) (string, bool) {
 		} else {
 			b.WriteString("R")
 		}
-		b.WriteString(ValuesText(in.Values))
-		b.WriteString(MetaText(in.MetaPairs()))
+		b.WriteString(ValuesTextPad(in.Values, o.ZeroPad))
+		b.WriteString(MetaText(in.MetaPairsPad(o.ZeroPad)))
 		parts = append(parts, b.String())
 	}
 	sep := o.Sep
